@@ -107,4 +107,21 @@ RoundTripOK(p, t, r) ==
 AllRequired(p, t) ==
   Bind(Present(p), LAMBDA P : Bind(Fields(t), LAMBDA fv :
     Required(P, [y |-> fv[LY], m |-> fv[LMo], d |-> fv[LD]]) = P))
+---------------------------------------------------------------------------
+\* The calendar above is zone-free.  A process whose local zone is not UTC formats and parses WALL-CLOCK
+\* fields: the wall clock of instant x where the zone's offset is `off` milliseconds (|off| < one day) is
+\* the calendar reading of the shifted instant.
+Shift(t, off) ==
+  LET m == t.ms + off
+  IN IF m < 0 THEN [day |-> t.day - 1, ms |-> m + MsPerDay]
+     ELSE IF m >= MsPerDay THEN [day |-> t.day + 1, ms |-> m - MsPerDay]
+     ELSE [day |-> t.day, ms |-> m]
+
+\* The round trip in a zone: x = the instant formatted (offset xoff there), r = the instant the parser
+\* returned (offset roff there).  The wall-clock fields obey the zone-free law; for the full pattern the
+\* parser returns THE INSTANT -- the only freedom is a wall-clock reading that occurs twice (clocks set
+\* back): then r may be the other instant with the same reading, which lies in a different offset regime.
+ZoneRoundTripOK(p, x, xoff, r, roff) ==
+  /\ RoundTripOK(p, Shift(x, xoff), Shift(r, roff))
+  /\ (Present(p) = FieldLetters => (r = x \/ roff # xoff))
 =============================================================================
